@@ -193,7 +193,8 @@ func runOne(lg *logger, r *rand.Rand, sc Scenario, pools map[string][]sshdvec.Ve
 	logins := make(chan common.RemoteUserLogin)
 	ctx, cancel := context.WithCancel(context.Background())
 	defer cancel()
-	pm := metrics.NewPrometheusMetricsProviderForRegisterer(prometheus.NewRegistry())
+	reg := prometheus.NewRegistry()
+	pm := metrics.NewPrometheusMetricsProviderForRegisterer(reg)
 	proc := sshd.NewSshdProcessor(ctx, logins, sshdvec.NodeName, sshdvec.MachineID, auditevent.NewAuditEventWriter(e), pm)
 
 	stopRecv := make(chan struct{})
@@ -254,7 +255,14 @@ func runOne(lg *logger, r *rand.Rand, sc Scenario, pools map[string][]sshdvec.Ve
 			lg.log(map[string]any{"k": "panic", "what": fmt.Sprint(res.panic)})
 			return
 		}
-		lg.log(map[string]any{"k": "return", "err": res.err != nil, "wraps": errors.Is(res.err, errInjected)})
+		// movement of the remote-logins counter during the call (fresh registry): total and the outcome label
+		total, label := 0, ""
+		for _, c := range sshdvec.Counters(reg) {
+			total += c.N
+			label = c.Outcome
+		}
+		lg.log(map[string]any{"k": "return", "err": res.err != nil, "wraps": errors.Is(res.err, errInjected),
+			"ctr": total, "ctrlabel": label})
 	}
 
 	returned := false
